@@ -107,10 +107,10 @@ func genC13(t *rapid.T) C13Case {
 	c := C13Case{Infix: rapid.IntRange(0, 3).Draw(t, "infix") == 0, Events: pickW(t, "events", 2, 1, 1)}
 	var tree *m.Node
 	if c.Infix {
-		tree = g.Expr(rootTy(t), g.Depth)
+		tree = g.Program(rootTy(t))
 		normSymbolic(tree)
 	} else {
-		tree = wrapRoot(g.Expr(rootTy(t), g.Depth))
+		tree = wrapRoot(g.Program(rootTy(t)))
 	}
 	fixEmptyLists(tree)
 	u := UniverseFor(t, tree, false)
